@@ -89,6 +89,25 @@ mod vk_slice {
         if let Some(a) = a { assert!(a.idx == c0 && std::ptr::eq(a.value, &data[c0]), "[C19 C02 same-address] the clone delivers references to the original elements"); }
     }
 
+    // cloning through a reference in generic code that knows nothing about the element type: an iterator over a slice is cloneable
+    // whatever its elements are (a Clone impl that only exists for `T: Clone` silently turns `it.clone()` into a copy of the REFERENCE
+    // here, i.e. an alias that shares the original's counter -- and still compiles)
+    fn pull_from_clone<T: Send + Sync>(it: &ConIterOfSlice<T>) -> Option<usize> { let mine = it.clone(); mine.next_id_and_value().map(|x| x.idx) }
+    // @harness name=slice_clone_generic props=C19 kind=bounded bound="slice of 3 elements of a type that is neither Clone nor Copy; counter values over the full usize domain (real atomics)"
+    #[kani::proof]
+    fn slice_clone_generic() {
+        struct NC(u8);
+        let data = [NC(kani::any()), NC(kani::any()), NC(kani::any())];
+        let it = ConIterOfSlice::new(&data[..]);
+        let c0: usize = kani::any();
+        kani::assume(c0 < usize::MAX);
+        it.counter().store(c0);
+        let r = pull_from_clone(&it);
+        kani::cover!(c0 < 3, "clone in the middle");
+        assert!(r == if c0 < 3 { Some(c0) } else { None }, "[C19 clone-pos] the clone starts at the original's position");
+        assert!(it.counter().current() == c0, "[C19 independent] pulling from a clone does not move the original, whatever the element type and however the clone was taken");
+    }
+
     // @harness name=slice_constructors props=C19 kind=bounded bound="collections of length 3"
     #[kani::proof]
     #[kani::unwind(5)]
